@@ -27,6 +27,9 @@ func runC13(c *an.Ctx) {
 		"Decides that the result cannot depend on the machine-vs-big representation through silent int64 overflow; does not decide exactness of math/big."
 	intValue, _ := c.P.Obj(tp + ".IntValue").(*types.TypeName)
 	intOp := mustFunc(c, tp+".IntValue.intOp")
+	if intOp != nil {
+		dispatcherRule(c, intOp)
+	}
 	if intValue == nil || intOp == nil {
 		c.Undecide("anchor|IntValue", "anchors must resolve", "-", "type not found")
 		return
@@ -290,4 +293,50 @@ func dominatedByMinExclusion(fn *ssa.Function, neg *ssa.UnOp) bool {
 		}
 	}
 	return false
+}
+
+// dispatcherRule: the binary arithmetic methods produce their (non-error)
+// result only through intOp, the one place that handles both the machine and
+// the big representation; a shortcut that returns a value computed from one
+// representation alone makes the result depend on how an operand is stored.
+func dispatcherRule(c *an.Ctx, intOp *ssa.Function) {
+	n := 0
+	for _, name := range []string{"Mod", "Div", "Mul", "Add", "Sub", "Xor", "And", "Or"} {
+		fn := mustFunc(c, "vm/neovm/types.IntValue."+name)
+		if fn == nil {
+			continue
+		}
+		n++
+		ok, why := true, ""
+		for _, r := range an.Returns(fn) {
+			if len(r.Results) != 2 {
+				continue
+			}
+			// an error return: the error result is not the nil constant and does not come from intOp
+			fromOp := func(v ssa.Value) bool {
+				for _, src := range an.AllSources(v) {
+					o := an.Origin(src)
+					if e, isE := o.(*ssa.Extract); isE {
+						if k, isK := e.Tuple.(*ssa.Call); isK && k.Call.StaticCallee() == intOp {
+							continue
+						}
+					}
+					return false
+				}
+				return true
+			}
+			if fromOp(r.Results[0]) && fromOp(r.Results[1]) {
+				continue
+			}
+			if k, isK := r.Results[1].(*ssa.Const); !isK || k.Value == nil {
+				// error operand is not a constant nil: an error return if it is a (non-nil) error value
+				if _, isConst := r.Results[1].(*ssa.Const); !isConst {
+					continue // returns a named error value such as ERR_DIV_MOD_BY_ZERO
+				}
+			}
+			ok, why = false, "a success return at "+c.P.Rel(r.Pos())+" does not come from intOp"
+		}
+		c.Check(ok, "dispatch|IntValue."+name+"|result-only-from-intOp", "a binary integer operation returns a value only through intOp, which evaluates it consistently for machine-size and big operands", c.P.Rel(fn.Pos()), why)
+	}
+	c.RequireMin("binary IntValue operations", n, 8)
 }
